@@ -1,8 +1,263 @@
-import Magog.Model.Eval
-import Magog.Model.Time
+import Magog.Model.Protocol
 
-/-! Property C12 — theorems (see DESIGN §5). -/
+/-! Property C12 — `stop` / `isready` at any moment: no deadlock, no lost stop, engine stays usable; no
+    unsynchronised shared state between command handling and the search.
+
+Theorems are about the transition system of `Model/Protocol.lean` instantiated with the handler shape
+*extracted from the source on this run* (`sourceShape`), for every reachable state — i.e. every command
+history allowed by UCI and every interleaving with the search thread, of any length (induction over
+`Reach`). The shape of the original tree (`oldShape`) violates four of them; the witnesses are proved
+below and were reproduced on the original binary (DESIGN §6 F9).
+
+Run-time residue (partial): "promptly" — how soon the search thread performs its next poll — and the Go
+scheduler are not expressible here; the theorems say the request *is queued for the live search and
+stays queued until that search takes it*. -/
 
 namespace Magog.Props.C12
+open Magog Magog.Model.Proto
+
+theorem sourceShape_eq : sourceShape =
+    { cap := 1, stopNonBlocking := true, stopReadsFlag := false, isreadyAlwaysNew := false, goDrains := true } := by
+  decide
+
+/-- inductive invariant of the repaired protocol: the command thread is never blocked, at most one
+    Search object exists, the global points to it, the search thread (if any) runs on it, the channel
+    holds at most one token, and every `go` is matched by exactly one `bestmove` once its thread is done -/
+def Inv (s : State) : Prop :=
+  s.cmd = .idle ∧
+  s.bestmoves + (if alive s then 1 else 0) = s.gos ∧
+  ((s.objs = [] ∧ s.cur = 0 ∧ s.thr = none) ∨
+   (∃ c b, s.objs = [⟨c, b⟩] ∧ c ≤ 1 ∧ s.cur = 1 ∧ (s.thr = none ∨ ∃ ph, s.thr = some ⟨1, ph⟩)))
+
+theorem inv_init : Inv init := by
+  refine ⟨rfl, by simp [init, alive], Or.inl ⟨rfl, rfl, rfl⟩⟩
+
+theorem inv_step (s s' : State) (l : Label) (h : Inv s) (hs : step sourceShape s l = some s') : Inv s' := by
+  rw [sourceShape_eq] at hs
+  obtain ⟨hc, hb, hshape⟩ := h
+  rcases s with ⟨objs, cur, thr, cmd, r, b, g⟩
+  simp only at hc hb hshape
+  subst hc
+  rcases hshape with ⟨rfl, rfl, rfl⟩ | ⟨c, fl, rfl, hc1, rfl, hthr⟩
+  · -- no object yet
+    cases l <;> simp [step, alloc, alive, getObj, setObj] at hs
+    · subst hs; exact ⟨rfl, hb, Or.inr ⟨0, true, rfl, by omega, rfl, Or.inl rfl⟩⟩
+    · subst hs; exact ⟨rfl, hb, Or.inl ⟨rfl, rfl, rfl⟩⟩
+    · subst hs
+      refine ⟨rfl, ?_, Or.inr ⟨0, true, rfl, by omega, rfl, Or.inr ⟨_, rfl⟩⟩⟩
+      simp [alive] at hb ⊢; omega
+  · have hc' : c = 0 ∨ c = 1 := by omega
+    cases l
+    · -- isready
+      simp [step] at hs
+      subst hs
+      exact ⟨rfl, hb, Or.inr ⟨c, fl, rfl, hc1, rfl, hthr⟩⟩
+    · -- stop
+      simp only [step, getObj, setObj] at hs
+      rcases hc' with rfl | rfl <;> simp at hs <;> subst hs
+      · exact ⟨rfl, hb, Or.inr ⟨1, fl, rfl, by omega, rfl, hthr⟩⟩
+      · exact ⟨rfl, hb, Or.inr ⟨1, fl, rfl, by omega, rfl, hthr⟩⟩
+    · -- go
+      simp only [step] at hs
+      by_cases ha : alive ⟨[⟨c, fl⟩], 1, thr, .idle, r, b, g⟩ = true
+      · simp [ha] at hs
+      · simp [ha, getObj, setObj] at hs
+        subst hs
+        refine ⟨rfl, ?_, Or.inr ⟨c - 1, fl, rfl, by omega, rfl, Or.inr ⟨_, rfl⟩⟩⟩
+        simp [ha] at hb
+        simp [alive]; omega
+    · -- tStart
+      rcases hthr with rfl | ⟨ph, rfl⟩
+      · simp [step] at hs
+      · cases ph <;> simp [step, getObj, setObj] at hs
+        subst hs
+        refine ⟨rfl, ?_, Or.inr ⟨c, false, rfl, hc1, rfl, Or.inr ⟨_, rfl⟩⟩⟩
+        simpa [alive] using hb
+    · -- tPoll
+      rcases hthr with rfl | ⟨ph, rfl⟩
+      · simp [step] at hs
+      · cases ph <;> simp [step, getObj, setObj] at hs
+        cases fl <;> simp at hs
+        rcases hc' with rfl | rfl <;> simp at hs <;> subst hs
+        · exact ⟨rfl, by simpa [alive] using hb, Or.inr ⟨0, false, rfl, by omega, rfl, Or.inr ⟨_, rfl⟩⟩⟩
+        · exact ⟨rfl, by simpa [alive] using hb, Or.inr ⟨0, true, rfl, by omega, rfl, Or.inr ⟨_, rfl⟩⟩⟩
+    · -- tLeave
+      rcases hthr with rfl | ⟨ph, rfl⟩
+      · simp [step] at hs
+      · cases ph <;> simp [step] at hs
+        subst hs
+        exact ⟨rfl, by simpa [alive] using hb, Or.inr ⟨c, fl, rfl, hc1, rfl, Or.inr ⟨_, rfl⟩⟩⟩
+    · -- tPrint
+      rcases hthr with rfl | ⟨ph, rfl⟩
+      · simp [step] at hs
+      · cases ph <;> simp [step] at hs
+        subst hs
+        refine ⟨rfl, ?_, Or.inr ⟨c, fl, rfl, hc1, rfl, Or.inr ⟨_, rfl⟩⟩⟩
+        simp [alive] at hb ⊢; omega
+
+theorem inv_reach {s : State} (h : Reach sourceShape s) : Inv s := by
+  induction h with
+  | init => exact inv_init
+  | step l _ hs ih => exact inv_step _ _ l ih hs
+
+/-- **no deadlock**: in every reachable state the command thread is idle — no handler ever blocks -/
+theorem no_block {s : State} (h : Reach sourceShape s) : s.cmd = .idle := (inv_reach h).1
+
+/-- …and therefore `isready`, `stop` and (when no search is alive) `go` are always enabled:
+    `isready` is always answered -/
+theorem isready_always_answered {s : State} (h : Reach sourceShape s) :
+    ∃ s', step sourceShape s .isready = some s' ∧ s'.readyoks = s.readyoks + 1 := by
+  have hc := no_block h
+  simp only [step, hc, bne_self_eq_false, Bool.false_eq_true, ↓reduceIte]
+  split <;> exact ⟨_, rfl, by simp [alloc]⟩
+
+/-- **isready does not disturb or orphan the search**: once a Search object exists, `isready` changes
+    nothing but the answer count -/
+theorem isready_keeps_search {s s' : State} (h : Reach sourceShape s) (hcur : s.cur ≠ 0)
+    (hs : step sourceShape s .isready = some s') :
+    s'.objs = s.objs ∧ s'.cur = s.cur ∧ s'.thr = s.thr ∧ s'.cmd = s.cmd := by
+  rw [sourceShape_eq] at hs
+  have hc := no_block h
+  simp [step, hc, hcur] at hs
+  subst hs
+  simp [hc]
+
+/-- **the global always addresses the live search**: a search thread runs on the object `stop` writes to -/
+theorem isready_safe {s : State} (h : Reach sourceShape s) (t : Thread) (ht : s.thr = some t) :
+    t.obj = s.cur ∧ s.cur ≠ 0 := by
+  obtain ⟨_, _, hsh⟩ := inv_reach h
+  rcases hsh with ⟨_, _, hn⟩ | ⟨c, fl, _, _, hcur, hthr⟩
+  · rw [hn] at ht; cases ht
+  · rcases hthr with hn | ⟨ph, hp⟩
+    · rw [hn] at ht; cases ht
+    · rw [hp] at ht; cases ht; simp [hcur]
+
+/-- **no lost stop**: after `stop` is handled while a search thread has not left its loops, a token is
+    queued on that thread's own channel -/
+theorem no_lost_stop {s s' : State} (h : Reach sourceShape s) (t : Thread) (ht : s.thr = some t)
+    (hs : step sourceShape s .stop = some s') :
+    s'.thr = some t ∧ (getObj s' t.obj).chan ≥ 1 := by
+  obtain ⟨hobj, hcur⟩ := isready_safe h t ht
+  obtain ⟨hc, _, hsh⟩ := inv_reach h
+  rw [sourceShape_eq] at hs
+  rcases hsh with ⟨_, _, hn⟩ | ⟨c, fl, hobjs, hc1, hcur1, _⟩
+  · rw [hn] at ht; cases ht
+  · simp only [step, hc, getObj, setObj, hobjs, hcur1] at hs
+    have hc' : c = 0 ∨ c = 1 := by omega
+    rcases hc' with rfl | rfl <;> simp at hs <;> subst hs <;> simp [ht, getObj, hobj, hcur1, hobjs]
+
+/-- **the token stays until the search takes it**: no step of anybody else removes it; the thread's own
+    steps keep it except the poll that observes it -/
+theorem token_persists {s s' : State} (h : Reach sourceShape s) (o : Nat) (ph : Phase) (ht : s.thr = some ⟨o, ph⟩)
+    (hph : ph = .spawned ∨ ph = .running) (htok : (getObj s o).chan ≥ 1) (l : Label) (hl : l ≠ .tPoll)
+    (hs : step sourceShape s l = some s') :
+    ∃ ph', s'.thr = some ⟨o, ph'⟩ ∧ (getObj s' o).chan ≥ 1 := by
+  obtain ⟨hobj, hcur⟩ := isready_safe h _ ht
+  obtain ⟨hc, _, hsh⟩ := inv_reach h
+  rw [sourceShape_eq] at hs
+  simp only at hobj
+  rcases hsh with ⟨_, _, hn⟩ | ⟨c, fl, hobjs, hc1, hcur1, _⟩
+  · rw [hn] at ht; cases ht
+  · have ho : o = 1 := by omega
+    subst ho
+    have hc' : c = 1 := by simp [getObj, hobjs] at htok; omega
+    subst hc'
+    rcases s with ⟨objs, cur, thr, cmd, r, b, g⟩
+    simp only at ht hobjs hcur1 hc
+    subst ht hobjs hcur1 hc
+    cases l
+    · simp [step] at hs; subst hs; exact ⟨ph, rfl, by simp [getObj]⟩
+    · simp [step, getObj] at hs; subst hs; exact ⟨ph, rfl, by simp [getObj]⟩
+    · rcases hph with rfl | rfl <;> simp [step, alive] at hs
+    · rcases hph with rfl | rfl <;> simp [step, getObj, setObj] at hs
+      subst hs; exact ⟨.running, rfl, by simp [getObj]⟩
+    · exact absurd rfl hl
+    · rcases hph with rfl | rfl <;> simp [step] at hs
+      subst hs; exact ⟨.finishing, rfl, by simp [getObj]⟩
+    · rcases hph with rfl | rfl <;> simp [step] at hs
+
+/-- **the search observes it at its next poll** (and an interrupted search does not poll again, it can
+    only leave its loops and print its single bestmove) -/
+theorem stop_observed {s : State} (o : Nat) (ht : s.thr = some ⟨o, .running⟩)
+    (hni : (getObj s o).interrupted = false) (htok : (getObj s o).chan ≥ 1) (sh : Shape) :
+    ∃ s', step sh s .tPoll = some s' ∧ (getObj s' o).interrupted = true ∧ s'.thr = some ⟨o, .running⟩ ∧
+      step sh s' .tPoll = none ∧ ∃ s'', step sh s' .tLeave = some s'' ∧ s''.thr = some ⟨o, .finishing⟩ := by
+  have hpos : (getObj s o).chan > 0 := by omega
+  have hl : o - 1 < s.objs.length := by
+    apply Classical.byContradiction
+    intro hn
+    have : s.objs[o - 1]? = none := by simp; omega
+    simp [getObj, List.getD, this] at htok
+  let s1 := setObj s o { chan := (getObj s o).chan - 1, interrupted := true }
+  have hget : getObj s1 o = { chan := (getObj s o).chan - 1, interrupted := true } := by
+    simp [s1, getObj, setObj, List.getD, hl]
+  have hthr : s1.thr = some ⟨o, .running⟩ := by simp [s1, setObj, ht]
+  refine ⟨s1, ?_, ?_, hthr, ?_, ?_⟩
+  · simp [step, ht, hni, hpos, s1]
+  · rw [hget]
+  · simp [step, hthr, hget]
+  · exact ⟨{ s1 with thr := some ⟨o, .finishing⟩ }, by simp [step, hthr], rfl⟩
+
+/-- **exactly one bestmove per go**: in every reachable state the number of `bestmove`s equals the number
+    of `go`s, minus one while the last search is still alive -/
+theorem one_bestmove_per_go {s : State} (h : Reach sourceShape s) :
+    s.bestmoves + (if alive s then 1 else 0) = s.gos := (inv_reach h).2.1
+
+/-- **a stop that arrives after the search has finished cannot hurt the next search**: `go` starts with
+    an empty channel -/
+theorem go_starts_clean {s s' : State} (h : Reach sourceShape s) (hs : step sourceShape s .go = some s') :
+    (getObj s' s'.cur).chan = 0 ∧ s'.thr = some ⟨s'.cur, .spawned⟩ := by
+  obtain ⟨hc, _, hsh⟩ := inv_reach h
+  rw [sourceShape_eq] at hs
+  rcases s with ⟨objs, cur, thr, cmd, r, b, g⟩
+  simp only at hc hsh
+  subst hc
+  rcases hsh with ⟨rfl, rfl, rfl⟩ | ⟨c, fl, rfl, hc1, rfl, _⟩
+  · simp [step, alloc, alive, getObj, setObj] at hs
+    subst hs; simp [getObj]
+  · simp only [step] at hs
+    by_cases ha : alive ⟨[⟨c, fl⟩], 1, thr, .idle, r, b, g⟩ = true
+    · simp [ha] at hs
+    · simp [ha, getObj, setObj] at hs
+      subst hs
+      simp [getObj]; omega
+
+/-! ### shared state (static access table regenerated from the source) -/
+
+/-- locations with an unsynchronised access by the search thread and a conflicting (one of them a
+    write) unsynchronised access by the `stop` or `isready` handler -/
+def conflicts (tbl : List (String × String × String × String)) : List String :=
+  (tbl.filter fun (loc, th, k, sy) =>
+    th == "search" && sy == "" &&
+    tbl.any fun (loc', th', k', sy') =>
+      loc' == loc && (th' == "stop" || th' == "isready") && sy' == "" && (k == "W" || k' == "W")).map (·.1)
+
+/-- **race freedom** (static): code reachable from the `stop` / `isready` handlers and code reachable from
+    the search goroutine's entry share no location with conflicting accesses that are not channel
+    operations or atomics -/
+theorem race_free : conflicts Gen.sharedAccess = [] := by decide
+
+/-! ### the protocol of the original tree: proved failure witnesses (fixed by the C12 `fix:` commit) -/
+
+/-- `go`, search runs to completion, `stop`: the command thread blocks in the send and *no* step is
+    enabled any more — the "all goroutines are asleep" deadlock -/
+theorem old_deadlock : ∃ s, run oldShape init [.go, .tStart, .tLeave, .tPrint, .stop] = some s ∧
+    s.cmd = .blockedSend 1 ∧ ∀ l, step oldShape s l = none := by
+  refine ⟨_, rfl, rfl, ?_⟩
+  intro l; cases l <;> rfl
+
+/-- `go` immediately followed by `stop`: the handler sees the flag still true and drops the request; the
+    search then polls an empty channel -/
+theorem old_lost_stop : ∃ s, run oldShape init [.go, .stop, .tStart, .tPoll] = some s ∧
+    (getObj s 1).interrupted = false ∧ (getObj s 1).chan = 0 ∧ s.thr = some ⟨1, .running⟩ := ⟨_, rfl, rfl, rfl, rfl⟩
+
+/-- `isready` during a search replaces the object: the live search runs on object 1, `stop` addresses 2 -/
+theorem old_orphan : ∃ s, run oldShape init [.go, .tStart, .isready, .stop] = some s ∧
+    s.thr = some ⟨1, .running⟩ ∧ s.cur = 2 ∧ (getObj s 1).chan = 0 ∧ s.cmd = .idle := ⟨_, rfl, rfl, rfl, rfl, rfl⟩
+
+/-- non-vacuity: a reachable state of the repaired protocol with a live search and a queued stop -/
+example : (run sourceShape init [.isready, .go, .isready, .tStart, .stop, .stop, .isready]).map
+      (fun s => (s.thr, (getObj s 1).chan, s.readyoks, s.cmd)) =
+    some (some ⟨1, .running⟩, 1, 3, .idle) := by decide
 
 end Magog.Props.C12
